@@ -58,7 +58,7 @@ PROPS = {
                 "handler-scheduled event and (non-zero start time or >= 1 past attempt)",
         "fault_probes": ["past_attempt", "past_root_attempt", "other_thread_built_a_runtime_during_a_handler"],
         "expected_probes": ["past_attempt", "past_root_attempt", "nonzero_start_time", "zero_delay_child", "tie_adjacent_pairs", "run_beyond_2_pow_64_ns",
-                            "other_thread_built_a_runtime_during_a_handler", "clock_checked_under_stepping"],
+                            "other_thread_built_a_runtime_during_a_handler", "clock_checked_under_stepping", "handler_panic_caught_by_the_driver", "helper_thread_read_the_clock"],
         "components": {"real": ["des::runtime::{Runtime, Builder, FutureEventSet}, des::time::SimTime, des-cqueue (real code)"],
                        "stub": ["Application / Event implementations: harness interpreter of the generated program"]},
         "assumptions": ["cqueue backend (default feature set)", "sampled programs, not exhaustive"],
@@ -104,7 +104,7 @@ PROPS = {
                 "timestamps; distinct = distinct program hash; non-trivial = the limit stopped the run with events remaining or "
                 "sits exactly on a boundary (n == total, T == a timestamp)",
         "fault_probes": ["limit_stopped_run", "limit_on_boundary"],
-        "expected_probes": ["limit_stopped_run", "limit_on_boundary", "handler_panic_caught_by_the_driver"],
+        "expected_probes": ["limit_stopped_run", "limit_on_boundary", "handler_panic_caught_by_the_driver", "event_added_after_the_limit_stopped_the_run"],
         "components": {"real": ["des::runtime::{Runtime, Builder, RuntimeLimit, Profiler} (real code)"],
                        "stub": ["Application / Event implementations: harness interpreter of the generated program"]},
         "assumptions": ["cqueue backend (default feature set)", "sampled programs and limits, not exhaustive"],
